@@ -84,7 +84,7 @@ func ratOf(s string) (*big.Rat, bool) {
 }
 
 func runC03(c *Ctx) {
-	n := c.N(1200, 40000)
+	n := c.N(3000, 40000)
 	dir := c.WorkDir
 	_ = dir
 	cases := genBalCasesWith(c, "valued", n, func(r *RNG) JGenOpts {
@@ -469,7 +469,7 @@ func c03ClosingMonitor(c *Ctx, bt *Batch, bc *balCase, in any, dates, ds []strin
 // minus at the eve of the column; per commodity line Spec.mtmPosOver) with the PROVED bound (Spec.stepBoundOver /
 // Spec.stepCountOver units of 1e-8, no slack).
 func c03Modes(c *Ctx, bt *Batch) {
-	n := c.N(600, 20000)
+	n := c.N(1500, 20000)
 	cases := genBalCasesWith(c, "modes", n, func(r *RNG) JGenOpts {
 		return JGenOpts{MaxAccounts: r.Range(2, 7), MaxDays: r.Range(2, 9), BaseDay: 737000 + r.Intn(1500), SpanDays: Pick(r, []int{5, 40, 100, 400}),
 			Prices: true, Valuation: Pick(r, []string{"CHF", "USD"}), ManyDecimals: r.Chance(1, 3), DropPrices: r.Chance(1, 12), ChainPrices: r.Chance(1, 3), DupPrices: true}
